@@ -173,7 +173,7 @@ func compareQueryCore(id string, p Path, shape string, doc any, c Case, visited 
 
 // refQuirks names the recorded defects the reference can emulate for
 // classification (each corresponds to one entry of KNOWN_FINDINGS.txt).
-var refQuirks = []string{"subscript-drops-null", "isunknown-swallows-hard-error"}
+var refQuirks = []string{"subscript-drops-null", "isunknown-swallows-hard-error", "unary-nonnumeric-exists-true"}
 
 func judgeQuery(id, shape string, out Out, ro refOut, c Case, st *cmpStats) *Failure {
 	if out.Class == "panic" {
@@ -186,6 +186,13 @@ func judgeQuery(id, shape string, out Out, ro refOut, c Case, st *cmpStats) *Fai
 		st.declined = true
 		st.outcome = "declined: " + ro.declined
 		return nil
+	}
+	for _, it := range ro.items {
+		if bareID(it, false) {
+			st.declined = true
+			st.outcome = "declined: a raw keyvalue id is part of the result"
+			return nil
+		}
 	}
 	// what the entry point must return
 	expClass := ro.class()
@@ -326,3 +333,25 @@ func refSweep(r *Run, rule string, paths []Path, docs []docEntry, cfgs []sweepCf
 }
 
 var _ = path.ErrPath
+
+// bareID reports whether v contains a keyvalue id outside the "id" member of its triple.
+func bareID(v any, inTripleID bool) bool {
+	switch x := v.(type) {
+	case refID:
+		return !inTripleID
+	case []any:
+		for _, e := range x {
+			if bareID(e, false) {
+				return true
+			}
+		}
+	case map[string]any:
+		kv := isKVTriple(x)
+		for k, e := range x {
+			if bareID(e, kv && k == "id") {
+				return true
+			}
+		}
+	}
+	return false
+}
